@@ -108,7 +108,7 @@ def check(prop, tier, seed, replay):
     try:
         if replay is None:
             design, all_shapes = shapes(tier)
-            sel = all_shapes if tier == "thorough" else sample(all_shapes, rnd, 30000)
+            sel = all_shapes if tier == "thorough" else sample(all_shapes, rnd, 60000)
             rnd.shuffle(sel)
             log("Shapes.tla: %d applicable shapes; %d selected" % (len(all_shapes), len(sel)))
         else:
